@@ -49,6 +49,7 @@ class NSWorld:
         self.outer = {}
         self.local = {}
         self.pending = []
+        self.pending_prefixes = set()
 
     def tables(self, q):
         return None
@@ -136,6 +137,8 @@ class NSWorld:
                     return 0
                 if n == 'isElementPending':
                     return 1
+                if n == 'isPendingResultPrefix':
+                    return int(m.ev(a[0]) in self.pending_prefixes)
                 if n == 'reportDuplicateNamespaceNodeError':
                     raise Reported('duplicate namespace node')
                 if n == 'warn':
@@ -277,7 +280,7 @@ def run_attr_rule(res, facts, tier, rid='C01-R11'):
     r = res.rule(rid, 'copying an attribute that is in a namespace leaves a namespace-well-formed element: the attribute case of XSLTEngineImpl::cloneToResultTree interpreted for '
                  'q:id in urn:q (and an attribute in no namespace) under every combination of the prefix being unbound / bound to urn:q / bound to another URI in the enclosing result '
                  'elements and on the element being built: afterwards the prefix is bound to urn:q where the attribute stands, no attribute name occurs twice - or an error is '
-                 'reported, and then only when the element itself declares the prefix for another namespace', floor=15)
+                 'reported, and then only when the element itself declares the prefix for another namespace or uses it in its own name; an element named with the prefix stays in its namespace', floor=25)
     w = NSWorld(facts)
     cands = [a for a in facts.asts('XSLTEngineImpl::cloneToResultTree', must=False) if a.get('body') is not None and len(a['params']) == 6]
     if len(cands) != 1:
@@ -285,18 +288,22 @@ def run_attr_rule(res, facts, tier, rid='C01-R11'):
     fn = cands[0]
     kfields = {f['n'] for f in (facts.K.get(NS + 'XSLTEngineImpl') or {}).get('fields', [])}
     choices = (None, 'urn:q', 'urn:other')
-    for (aname, auri), outer_q, local_q in itertools.product((('q:id', 'urn:q'), ('id', '')), choices, choices):
+    for (aname, auri), outer_q, local_q, elem_uses_q in itertools.product((('q:id', 'urn:q'), ('id', '')), choices, choices, (False, True)):
+        if elem_uses_q and outer_q is None and local_q is None:
+            continue            # an element named q:f needs q bound somewhere
         attr = SNode('attr', aname, '7', None)
         attr.uri = auri
         w.outer = {'q': outer_q} if outer_q else {}
         w.local = {'q': local_q} if local_q else {}
         w.pending = [('xmlns:q', local_q)] if local_q else []
+        w.pending_prefixes = {'q'} if elem_uses_q else set()
+        elem_ns_before = (local_q or outer_q) if elem_uses_q else None
         w.calls = 0
         this = Obj(NS + 'XSLTEngineImpl', {'m_resultNamespacesStack': 'NSSTACK', 'm_attributeNamesVisited': Vec([]), 'm_executionContext': 'ECTX', 'm_outputContextStack': Vec([1])})
         for f in kfields:
             this.fields.setdefault(f, 0)
-        site = 'copy of the attribute %s%s onto an element that %s, inside elements that %s' % (
-            aname, ' (namespace %s)' % auri if auri else ' (no namespace)',
+        site = 'copy of the attribute %s%s onto %s that %s, inside elements that %s' % (
+            aname, ' (namespace %s)' % auri if auri else ' (no namespace)', 'an element named q:f' if elem_uses_q else 'an element',
             'declares q=%s' % local_q if local_q else 'does not declare q', 'bind q to %s' % outer_q if outer_q else 'do not bind q')
         outcome = None
         try:
@@ -311,7 +318,7 @@ def run_attr_rule(res, facts, tier, rid='C01-R11'):
             raise AnalysisBroken('cloneToResultTree outside the interpreted subset (%s): %s' % (site, u))
         bound = dict(w.outer); bound.update(w.local)
         names = [nm for nm, v in w.pending]
-        conflict = bool(auri) and local_q is not None and local_q != auri
+        conflict = bool(auri) and ((local_q is not None and local_q != auri) or (elem_uses_q and elem_ns_before != auri))
         if outcome is not None and outcome.startswith('FAULT'):
             r.violation(site, outcome, common.file_line(fn))
         elif outcome is not None:
@@ -324,6 +331,9 @@ def run_attr_rule(res, facts, tier, rid='C01-R11'):
         elif auri and bound.get('q') != auri:
             r.violation(site, 'the attribute is written as %s but its prefix is %s where it stands: the element is not namespace-well-formed (or the attribute is in another namespace)' %
                         (aname, 'bound to ' + bound['q'] if bound.get('q') else 'not declared'), common.file_line(fn))
+        elif elem_uses_q and bound.get('q') != elem_ns_before:
+            r.violation(site, 'the element q:f was in the namespace %s and is in %s after the copy: the declaration added for the attribute rebinds the prefix of the element\'s own name' %
+                        (elem_ns_before, bound.get('q')), common.file_line(fn))
         elif len(names) != len(set(names)):
             r.violation(site, 'the element gets two attributes of the same name: %s' % sorted(names), common.file_line(fn))
         else:
